@@ -140,6 +140,8 @@ class Scenario(object):
                 return "run"
             if o[0] == "flag":
                 return "flag%d" % int(bool(o[1]))
+            if o[0] == "del":       # del program.commands[name]
+                return "del " + enc_str(o[1])
             if o[0] == "copy":      # the program is replaced by copy.deepcopy(program); the original is dropped
                 return "copy"
             if o[0] == "addobj":    # like add, but references are given as the Command objects themselves
@@ -189,7 +191,9 @@ def stub_execute(rec, original=None):
                 for c in flat:
                     fin = c.is_finished
                     r = c.result
-                    rec.reads.append((self.result_name, c.result_name, fin, c.is_finished and r is c._result))
+                    # the object read is the command that carries that name in the program now, finished, handing out its stored result
+                    current = getattr(self, "program", None) is None or self.program.commands.get(c.result_name) is c
+                    rec.reads.append((self.result_name, c.result_name, fin, c.is_finished and r is c._result and current))
         fail = kw.get("Fail")
         if fail == "mp":
             from mpilot.exceptions import ProgramError
@@ -294,6 +298,8 @@ def run_impl(sc, recursion_limit=None):
                                     return [obj(x) for x in v]
                                 return raw_of(v)
                             p.add_command(p.find_command_class(c_), r_, OrderedDict((n, obj(v)) for n, v in a_))
+                        elif op[0] == "del":
+                            del p.commands[op[1]]
                         elif op[0] == "copy":
                             import copy, gc
                             q = copy.deepcopy(p)
